@@ -36,7 +36,7 @@ class Cfg:
         self.negative_divmod = True
         self.strings = True                  # string literals passed to print/println
         self.question_marks = False          # '?' in string literals (C trigraphs ??! ??/ ...)
-        self.escapes = False                 # backslash escapes inside string literals
+        self.escapes = True                  # backslash escapes inside string literals
         self.globals = True
         self.recursion = True
         self.cond_expr = True
@@ -163,7 +163,7 @@ class Gen:
 
     def gen_block(self, sc, depth, n, in_loop=None, ret=None):
         """returns stmt; sc is copied so that lets do not leak"""
-        sc = dict(sc, vars=list(sc['vars']), declared_here=set())
+        sc = dict(sc, vars=list(sc['vars']), declared_here=set(sc.pop('predeclared', ())) if 'predeclared' in sc else set())
         ss = []
         for _ in range(n):
             ss.append(self.gen_stmt(sc, depth, in_loop, ret))
@@ -192,7 +192,7 @@ class Gen:
                     else:
                         e = self.lit(ty)
             elif self.c.shadow_global and sc.get('globals') and r.random() < 0.1:
-                cand = [g for (g, t) in sc['globals'] if t == ty]
+                cand = [g for (g, t) in sc['globals'] if t == ty and (self.c.same_scope_redeclare or g not in sc.get('declared_here', ()))]
                 if cand:
                     x = r.choice(cand); self.f('shadow_global')
                     if mentions(e, x) and not self.c.self_ref_shadow:
@@ -234,6 +234,7 @@ class Gen:
             body = self.gen_block(sub, depth - 1, r.randrange(1, 4), 'while', ret)
             inc = ('set', cvar, ('bin', 'add', ('var', cvar), ('num', 1)))
             sc['vars'].append((cvar, 'int', True))
+            sc.setdefault('declared_here', set()).add(cvar)
             sc['frozen'] = tuple(sc.get('frozen', ())) + (cvar,)
             self.f('while')
             return ('seq', ('let', True, cvar, 'int', ('num', 0)),
@@ -269,12 +270,14 @@ class Gen:
         return ('print', True, self.gen_expr('int', ed, sc))
 
     def gen_string(self):
+        """raw source spelling of a string literal (bytes between the quotes)"""
         r = self.r
         n = r.randrange(0, 12)
-        alphabet = 'abcxyz XYZ019_-+.,:;!' + ('?' if self.c.question_marks else '')
+        atoms = list('abcxyz XYZ019_-+.,:;!') + (['?'] if self.c.question_marks else [])
         if self.c.escapes:
-            alphabet += '\\'
-        return ''.join(r.choice(alphabet) for _ in range(n)).encode()
+            atoms += ['\\n', '\\t', '\\\\', '\\"', "\\'"] * 2
+            self.f('string_escape')
+        return ''.join(r.choice(atoms) for _ in range(n)).encode()
 
     # ---------------------------------------------------------------- functions / program
     def gen_program(self):
@@ -318,7 +321,7 @@ class Gen:
             else:
                 ret = r.choice(['int', 'bool', 'void']) if self.c.void_fns else r.choice(['int', 'bool'])
                 fsc = dict(sc, vars=[(g, t, False) for (g, t) in sc['globals']] + [(x, t, False) for (x, t) in params])
-                stmts = self.gen_block(fsc, self.c.max_depth - 1, r.randrange(1, self.c.max_stmts), None, ret)
+                stmts = self.gen_block(dict(fsc, predeclared=[x for (x, t) in params]), self.c.max_depth - 1, r.randrange(1, self.c.max_stmts), None, ret)
                 # the final return must see only function-level variables: generate it in the function scope
                 fin = ('ret', None) if ret == 'void' else ('ret', self.gen_expr(ret, 2, fsc, pure=False))
                 body = self.seq([stmts, fin])
@@ -401,14 +404,7 @@ def tyname(t):
 
 
 def nano_str(b):
-    out = []
-    for c in b:
-        ch = chr(c)
-        if ch == '"':
-            out.append('\\"')
-        else:
-            out.append(ch)
-    return '"' + ''.join(out) + '"'
+    return '"' + bytes(b).decode('latin1') + '"'
 
 
 def lit_int(z):
